@@ -1,20 +1,25 @@
-use vmodel::dsl::*;
+//! `vc_runtime --debug <replay.json>`: run a HistCase replay verbosely (development aid).
+use crate::hist::HistCase;
 use vmodel::rt::*;
-use vmodel::universe::*;
-use warp_core::{IngressEnvelope, IngressTarget};
 
 pub fn run() {
-    let seed = WorldSeed { worldlines: vec![(StateSeed { root: WarpSeed { root_node: 0, nodes: vec![(1, 0)], edges: vec![], natt: vec![], eatt: vec![] }, children: vec![] }, vec![HeadSeed { policy: PolicySeed::AcceptAll, inbox: None }])], workers: 1 };
-    let mut w = build_world(&seed);
-    let instrs = vec![Instr::UpsertNode { n: 5, ty: 2 }];
-    let instrs = vec![Instr::ReadNode(0)];
-    let prog = Prog { cond: MatchCond::Always, fp: AFootprint { factor_mask: u64::MAX, ..Default::default() }, instrs };
-    let env = IngressEnvelope::local_intent(IngressTarget::ExactHead { key: head_key(0, 0) }, kind(0), encode_prog(&prog, 1));
-    println!("submit: {:?}", w.submit(env).map(|d| format!("{d:?}").chars().take(60).collect::<String>()));
-    let before = EXEC_COUNT.load(std::sync::atomic::Ordering::Relaxed);
-    println!("pass: {:?}", w.pass());
-    println!("exec count delta: {}", EXEC_COUNT.load(std::sync::atomic::Ordering::Relaxed) - before);
-    println!("state: {:?}", lenient_dump(w.frontier(0)));
-    let (_, receipt, patch) = w.frontier(0).tick_history().last().unwrap().clone();
-    println!("receipt entries: {} ops: {}", receipt.entries().len(), patch.ops().len());
+    let path = std::env::args().nth(2).expect("replay file");
+    let v: serde_json::Value = serde_json::from_str(&std::fs::read_to_string(path).expect("read")).expect("json");
+    let case = v.get("case").cloned().unwrap_or(v.clone());
+    let case: HistCase = match serde_json::from_value(case.clone()) {
+        Ok(c) => c,
+        Err(_) => serde_json::from_value(case.get("hist").cloned().expect("hist")).expect("HistCase"),
+    };
+    let mut w = build_world(&case.world);
+    for (i, s) in case.steps.iter().enumerate() {
+        let tag = w.apply_step(&case.world, s);
+        let short: String = format!("{s:?}").chars().take(90).collect();
+        println!("[{i}] {short} -> {tag}");
+        println!("     lens={:?} pending={:?} correlations={}", (0..w.n_wl() as u8).map(|wl| w.len(wl)).collect::<Vec<_>>(), w.runtime.heads().iter().map(|(_, h)| h.inbox().pending_count()).collect::<Vec<_>>(), w.runtime.receipt_correlations().count());
+        if tag.starts_with("restart:failed") {
+            for c in w.runtime.receipt_correlations() {
+                println!("     correlation: {c:#?}");
+            }
+        }
+    }
 }
